@@ -619,6 +619,81 @@ Section FilterProofs.
   Qed.
 End FilterProofs.
 
+(* ------------------------------------------------------------------ stored bounds are the column's true extremes *)
+Lemma has_col_arrow T g : In g T -> has_col (arrow_of T) (fname g) = true.
+Proof.
+  intro H. unfold has_col, arrow_of. apply existsb_exists. exists (fname g, arrow_of_type (ftype g), negb (freq g)).
+  split; [apply in_map_iff; exists g; auto | simpl; apply Z.eqb_refl].
+Qed.
+
+Section BoundsExact.
+  Variable conv : atype -> pyval -> option pyval.
+  Variable ts : ischema.
+  Let T := sfields ts.
+  Let A := arrow_of T.
+  Hypothesis NDn : NoDup (map fname T).
+  Hypothesis NDi : NoDup (map fid T).
+
+  (* For every file an accepted append wrote and every column that carries bounds: the bound stored under
+     the column's TABLE field id is exactly the minimum / maximum of the stored column (as pc.min / pc.max
+     define it: NULLs and NaNs skipped) -- never a shortened, rounded or otherwise altered value -- and a
+     column without ordinary values stores no bound. *)
+  Lemma file_bounds_exact f g : file_ok conv ts f -> In g T -> bounds_skipped (ftype g) = false ->
+    match bounds_of (column (map vrow (df_rows f)) (fname g)) with
+    | Some (mn, mx) => lookup (fid g) (df_lo f) = Some mn /\ lookup (fid g) (df_hi f) = Some mx
+    | None => lookup (fid g) (df_lo f) = None /\ lookup (fid g) (df_hi f) = None
+    end.
+  Proof.
+    intros [Ea [Eb _]] Hg Sk. fold T in Eb. fold A in Eb. unfold bounds_for in Eb.
+    assert (E1 : df_lo f = fst (file_bounds (bound_ids T A) (map vrow (df_rows f)))) by (rewrite <- Eb; reflexivity).
+    assert (E2 : df_hi f = snd (file_bounds (bound_ids T A) (map vrow (df_rows f)))) by (rewrite <- Eb; reflexivity).
+    rewrite E1, E2. apply lookup_file_bounds.
+    - unfold bound_ids. rewrite map_snd_ids. apply nodup_map_filter. exact NDi.
+    - unfold bound_ids. apply lookup_ids_in; [apply nodup_map_filter; exact NDn|].
+      apply filter_In. split; [exact Hg|]. unfold A. rewrite (has_col_arrow T g Hg), Sk. reflexivity.
+  Qed.
+
+  Lemma inv_bounds_exact w f g : Inv conv ts w -> In f (current w) -> In g T -> bounds_skipped (ftype g) = false ->
+    match bounds_of (column (map vrow (df_rows f)) (fname g)) with
+    | Some (mn, mx) => lookup (fid g) (df_lo f) = Some mn /\ lookup (fid g) (df_hi f) = Some mx
+    | None => lookup (fid g) (df_lo f) = None /\ lookup (fid g) (df_hi f) = None
+    end.
+  Proof.
+    intros I Hf. destruct (current_in _ _ Hf) as [sn [H1 H2]]. apply file_bounds_exact. exact (inv_files conv ts w I sn f H1 H2).
+  Qed.
+End BoundsExact.
+
+Lemma history_bounds_exact conv ts es f g :
+  NoDup (map fname (sfields ts)) -> NoDup (map fid (sfields ts)) ->
+  In f (current (run conv (init (Some ts)) es)) -> In g (sfields ts) -> bounds_skipped (ftype g) = false ->
+  match bounds_of (column (map vrow (df_rows f)) (fname g)) with
+  | Some (mn, mx) => lookup (fid g) (df_lo f) = Some mn /\ lookup (fid g) (df_hi f) = Some mx
+  | None => lookup (fid g) (df_lo f) = None /\ lookup (fid g) (df_hi f) = None
+  end.
+Proof.
+  intros NDn NDi Hf Hg Sk. apply (inv_bounds_exact conv ts NDn NDi (run conv (init (Some ts)) es)); auto.
+  apply run_inv. apply inv_init.
+Qed.
+
+(* ... and therefore they bound every ordinary value of the column (C13_bounds_true) *)
+Lemma history_bounds_true conv ts es f g lo hi :
+  NoDup (map fname (sfields ts)) -> NoDup (map fid (sfields ts)) -> conv_kinds conv ->
+  In f (current (run conv (init (Some ts)) es)) -> In g (sfields ts) ->
+  lookup (fid g) (df_lo f) = Some lo -> lookup (fid g) (df_hi f) = Some hi -> bounds_skipped (ftype g) = false ->
+  forall r, In r (df_rows f) -> ordinary (cell (vrow r) (fname g)) = true ->
+  vle lo (cell (vrow r) (fname g)) /\ vle (cell (vrow r) (fname g)) hi.
+Proof.
+  intros NDn NDi CK Hf Hg L1 L2 Sk r Hr Or.
+  pose proof (history_bounds_exact conv ts es f g NDn NDi Hf Hg Sk) as E.
+  assert (I : Inv conv ts (run conv (init (Some ts)) es)) by (apply run_inv; apply inv_init).
+  destruct (current_in _ _ Hf) as [sn [H1 H2]]. destruct (inv_files conv ts _ I sn f H1 H2) as [_ [_ [rs Cv]]].
+  destruct (bounds_of (column (map vrow (df_rows f)) (fname g))) as [[mn mx]|] eqn:B.
+  - destruct E as [E1 E2]. rewrite L1 in E1. rewrite L2 in E2. inversion E1; inversion E2; subst.
+    pose proof (bounds_true _ _ _ (converted_homogeneous conv CK _ rs (df_rows f) (fname g) Cv) B) as [BT _].
+    apply BT; [|exact Or]. unfold column. rewrite map_map. apply in_map_iff. exists r. auto.
+  - destruct E as [E1 _]. rewrite L1 in E1. discriminate.
+Qed.
+
 Lemma history_filter conv X ts es fs :
   NoDup (map fname (sfields ts)) -> NoDup (map fid (sfields ts)) -> conv_kinds conv ->
   let w := run conv (init (Some ts)) es in
